@@ -1,8 +1,9 @@
 import TantivyModel.Proofs.Columnar.Mapping
-import TantivyModel.Proofs.Columnar.Range
-import TantivyModel.Proofs.Columnar.Header
-import TantivyModel.Proofs.Columnar.Stack
-import TantivyModel.Proofs.Columnar.OptionalIndex
+import TantivyModel.Proofs.Columnar.LinearColumn
+import TantivyModel.Proofs.Columnar.CompactGaps
+import TantivyModel.Proofs.Columnar.StackMissing
+import TantivyModel.Proofs.Columnar.Writer
+import TantivyModel.Proofs.Columnar.OptRankSelect
 /-!
 # C08 — Fast fields return exactly the values that were indexed
 
@@ -92,17 +93,25 @@ example : (List.range 4).map (linearGet (linearEncWith (Line.train [10, 7, 4, 1]
     (linearEncWith (Line.train [10, 7, 4, 1]) [10, 7, 4, 1]).2.1
     (linearEncWith (Line.train [10, 7, 4, 1]) [10, 7, 4, 1]).2.2) = [10, 7, 4, 1] := by decide
 
-/- Full statement still open (kept visible):
-   theorem C08_blockwise_exact (vals) (hv : ∀ v ∈ vals, v < 2^64) :
-     decodeU64Column (2 :: blockwiseEnc vals) = some vals
-   Proved part below: one 512-row block, with arbitrary bytes following its bit stream. What is
-   missing is the bookkeeping that the shared packer is empty at every block boundary (512·w bits
-   are a multiple of 64) and the footer parsing; both are covered by the cross-decoding run. -/
-/-- one block of the blockwise-linear codec: normalised values `(v − min)/gcd`, offsets to the
-trained line written with the block's maximal `compute_num_bits`, read back exactly — also when
-more bytes (next blocks, footer) follow the byte-aligned stream — and `min + gcd·(eval + off)`
-is the indexed value. -/
-theorem C08_blockwise_exact_partial (s : Stats) (hg : s.gcd ≠ 0) (block : List Nat) (rest : Bytes)
+/-- blockwise-linear codec across blocks and its footer, through the real byte layout: stats
+header; one bit packer shared by all 512-row blocks (empty again at every block boundary because
+512·w bits are whole 64-bit words, so the stream is the concatenation of the blocks' streams and
+block `b` starts at `Σ w·512/8`); per block (VInt slope, VInt intercept, width byte); footer length
+as u32 LE: `load (serialize vals) = vals` for every column of at most `u32::MAX` u64 values. -/
+theorem C08_blockwise_exact (vals : List Nat) (hv : ∀ v ∈ vals, v < 2 ^ 64) (hlen : vals.length < 2 ^ 32) :
+    decodeU64Column (2 :: blockwiseEnc vals) = some vals :=
+  blockwise_column_roundtrip vals hv hlen
+
+/-- the linear codec through its byte layout (stats header, VInt line, width byte, payload), whenever
+it is applicable (at least `LINE_ESTIMATION_BLOCK_LEN` values) -/
+theorem C08_linear_column_roundtrip (vals : List Nat) (hv : ∀ v ∈ vals, v < 2 ^ 64) (hlen : vals.length < 2 ^ 32)
+    (bytes : Bytes) (henc : linearEnc vals = some bytes) : decodeU64Column (1 :: bytes) = some vals :=
+  linear_column_roundtrip vals hv hlen bytes henc
+
+/-- one block of the blockwise-linear codec, for every line: normalised values `(v − min)/gcd`,
+offsets written with the block's maximal `compute_num_bits`, read back exactly also when more bytes
+follow the byte-aligned stream -/
+theorem C08_blockwise_block (s : Stats) (hg : s.gcd ≠ 0) (block : List Nat) (rest : Bytes)
     (hrest : ∀ b ∈ rest, b < 256)
     (hv : ∀ v ∈ block, s.min ≤ v ∧ v < 2 ^ 64 ∧ s.gcd ∣ v - s.min)
     (hfull : 8 ∣ (bwBlockEnc s block).1.width * block.length)
@@ -110,44 +119,129 @@ theorem C08_blockwise_exact_partial (s : Stats) (hg : s.gcd ≠ 0) (block : List
     s.min + (BitVec.ofNat 64 s.gcd * ((bwBlockEnc s block).1.line.eval i + BitVec.ofNat 64
         (unpackGet (bwBlockEnc s block).1.width i
           (pack (bwBlockEnc s block).1.width (bwBlockEnc s block).2 ++ rest)))).toNat = block[i] :=
-  blockwise_block_exact s hg block rest hrest hv hfull i hi
+  blockwise_block_exact s hg block rest hrest hv (Or.inl hfull) i hi
 
 example : decodeU64Column (2 :: blockwiseEnc [100, 103, 109, 106]) = some [100, 103, 109, 106] := by decide
 
-/-- codec choice is irrelevant for the values read: whichever of the bitpacked codec and the linear
-codec (with any estimation line) serialises a column, every row reads back the same value — the
-indexed one. -/
-theorem C08_codec_choice_irrelevant (l : Line) (vals : List Nat) (hv : ∀ v ∈ vals, v < 2 ^ 64) (i : Nat)
-    (hi : i < vals.length) :
-    bitpackedGet (collectStats vals) (bitpackedPayload (collectStats vals) vals) i
-      = linearGet (linearEncWith l vals).1 (linearEncWith l vals).2.1 (linearEncWith l vals).2.2 i := by
-  rw [C08_bitpacked_exact vals hv i hi, C08_linear_exact l vals hv i hi]
+/-- codec choice is irrelevant: whichever codec `serialize_u64_based_column_values` picks among the
+applicable ones (any estimate, any codec list), loading the bytes gives the indexed values — all
+three serialized forms decode to the same column. -/
+theorem C08_codec_choice_irrelevant (vals : List Nat) (hv : ∀ v ∈ vals, v < 2 ^ 64) (hlen : vals.length < 2 ^ 32)
+    (codec : Nat) (bytes : Bytes) (henc : encodeU64Column codec vals = some bytes) :
+    decodeU64Column bytes = some vals := by
+  unfold encodeU64Column at henc
+  split at henc
+  · cases henc; exact bitpacked_column_roundtrip vals hv hlen
+  · cases h : linearEnc vals with
+    | none => rw [h] at henc; cases henc
+    | some b => rw [h] at henc; cases henc; exact linear_column_roundtrip vals hv hlen b h
+  · cases henc; exact blockwise_column_roundtrip vals hv hlen
+  · cases henc
+
+/-! ## compact space (u128 columns: IP addresses) -/
+
+/-- the facts behind both compact-space theorems: `vals` = the sorted, deduplicated values of the
+column; `sel` = whatever non-empty selection of the candidate blanks (below the minimum, between
+consecutive values, above the maximum) the cost heuristic of `get_compact_space` makes, in the
+order `finish` sorts them. Then the covered space is well formed and covers every value. -/
+theorem C08_compact_space_covers (vals : List Nat) (hs : vals.Pairwise (· < ·)) (hmax : ∀ v ∈ vals, v ≤ U128MAX)
+    (sel : List (Nat × Nat)) (hsub : sel.Sublist (allGaps vals)) (hne : sel ≠ []) :
+    ValidRanges (coveredOf sel) ∧ ∀ v ∈ vals, Covered (coveredOf sel) v := by
+  obtain ⟨hout, hvalid⟩ := allGaps_spec vals hs hmax
+  have hvb := validBlanks_sublist hsub hvalid
+  have hcov : coveredOf sel = coveredFrom 0 sel := by
+    unfold coveredOf
+    cases sel with
+    | nil => exact absurd rfl hne
+    | cons b bs => rfl
+  rw [hcov]
+  exact ⟨coveredFrom_valid 0 sel hvb, fun v hv => coveredFrom_covers 0 sel hvb v (Nat.zero_le _) (hmax v hv)
+    (fun b hb => hout b (hsub.subset hb) v hv)⟩
+
+/-- compact-space codec: whichever blanks are removed, every row of the column (values in any order,
+with repetitions) reads back exactly — `compact_to_u128 (unpack i) = vals[i]` — also with the
+footer bytes following the bit-packed compact values -/
+theorem C08_compact_space_exact (vals : List Nat) (hs : vals.Pairwise (· < ·)) (hmax : ∀ v ∈ vals, v ≤ U128MAX)
+    (sel : List (Nat × Nat)) (hsub : sel.Sublist (allGaps vals)) (hne : sel ≠ [])
+    (hamp : amplitude (coveredOf sel) < 2 ^ 64)
+    (col : List Nat) (hcol : ∀ v ∈ col, v ∈ vals) (rest : Bytes) (hrest : ∀ b ∈ rest, b < 256)
+    (i : Nat) (hi : i < col.length) :
+    fromCompact (coveredOf sel)
+      (unpackGet (computeNumBits (amplitude (coveredOf sel))) i (compactPayload (coveredOf sel) col ++ rest)) = col[i] := by
+  obtain ⟨hv, hc⟩ := C08_compact_space_covers vals hs hmax sel hsub hne
+  exact compact_codec_exact _ hv hamp col (fun v hvm => hc v (hcol v hvm)) rest hrest i hi
+
+/-- the mapping value ↦ compact value is defined on every value, inverted by `compact_to_u128`, and
+strictly monotone — so comparisons and range lookups on compact values are comparisons on the
+original u128 values -/
+theorem C08_compact_space_order_preserving (vals : List Nat) (hs : vals.Pairwise (· < ·))
+    (hmax : ∀ v ∈ vals, v ≤ U128MAX) (sel : List (Nat × Nat)) (hsub : sel.Sublist (allGaps vals)) (hne : sel ≠ []) :
+    (∀ v ∈ vals, ∃ c, toCompact (coveredOf sel) v = some c ∧ 1 ≤ c ∧ c ≤ amplitude (coveredOf sel)
+        ∧ fromCompact (coveredOf sel) c = v) ∧
+    (∀ v1 v2 c1 c2, v1 < v2 → toCompact (coveredOf sel) v1 = some c1 → toCompact (coveredOf sel) v2 = some c2 → c1 < c2) := by
+  obtain ⟨hv, hc⟩ := C08_compact_space_covers vals hs hmax sel hsub hne
+  refine ⟨?_, fun v1 v2 c1 c2 hlt h1 h2 => toCompactFrom_mono _ hv 1 v1 v2 c1 c2 hlt h1 h2⟩
+  intro v hvm
+  obtain ⟨c, h1, h2, h3, h4⟩ := toCompactFrom_spec _ hv 1 v (hc v hvm)
+  exact ⟨c, h1, h2, by omega, h4⟩
+
+example : allGaps [5, 6, 100, 2 ^ 128 - 1] = [(0, 4), (7, 99), (101, 2 ^ 128 - 2)] := by decide
+example : coveredOf [(0, 4), (101, 2 ^ 128 - 2)] = [(5, 100), (2 ^ 128 - 1, 2 ^ 128 - 1)]
+    ∧ toCompact [(5, 100), (2 ^ 128 - 1, 2 ^ 128 - 1)] 100 = some 96
+    ∧ toCompact [(5, 100), (2 ^ 128 - 1, 2 ^ 128 - 1)] (2 ^ 128 - 1) = some 97
+    ∧ fromCompact [(5, 100), (2 ^ 128 - 1, 2 ^ 128 - 1)] 97 = 2 ^ 128 - 1 := by decide
 
 /-! ## optional index -/
 
-/- Full statement still open (kept visible): for every strictly increasing `rows` below `numRows`,
-   `optOpen (optEnc rows numRows) = some o` with `o.rank d = rankSpec rows d`,
-   `o.rankIfExists d = if d ∈ rows then some (rankSpec rows d) else none`, `o.select k = rows[k]`,
-   through the whole byte layout incl. dense blocks. Proved: the block decomposition for every
-   block size, select∘rank = id on the abstract set, and the sparse block on its real byte layout
-   (binary search); dense blocks and the metadata parsing are covered by the byte-exact
-   correspondence run only. -/
-/-- `rank` through 65 536-row blocks (block offset + in-block rank) counts the members below, for
-every set of rows and every block size; on a strictly increasing row list `select (rank r) = r`
-for members and the k-th member has rank k; a sparse block (sorted u16 LE, binary search) answers
-`rank`, `rank_if_exists`, `select` exactly as the abstract set does. -/
-theorem C08_optional_rank_select_partial :
-    (∀ (E : Nat), 0 < E → ∀ (rows : List Nat) (r : Nat), rankBlocks E rows r = rankSpec rows r) ∧
+/-- the optional index on its real byte layout (VInt row count; per 65 536-row block either sorted
+u16 LE or 1024 mini blocks of 64-bit bitvec + u16 rank offset; block metadata; block count): for
+every strictly increasing set of rows below `numRows`, `open (serialize rows)` succeeds and
+`rank d` = number of members below `d` (every `d`, also beyond the last row), `rank_if_exists d` =
+`some (rank d)` exactly on members, `select k` = the k-th member — with `find_block` started at 0
+(`OptionalIndex::select`, used by `MultiValueIndex::select_batch_in_place`) or at any cursor block
+not beyond the answer (`OptionalIndexSelectCursor`) — and `select (rank r) = r` on members.
+(`numRows ≤ 65535·65536`: the number of non-empty blocks must fit the trailing u16.) -/
+theorem C08_optional_rank_select (rows : List Nat) (numRows : Nat)
+    (hs : rows.Pairwise (· < ·)) (hb : ∀ r ∈ rows, r < numRows) (hsmall : numRows ≤ 65535 * 65536) :
+    ∃ o, optOpen (optEnc rows numRows) = some o ∧ o.numDocs = numRows ∧ o.numNonNull = rows.length ∧
+      (∀ d, o.rank d = some (rankSpec rows d)) ∧
+      (∀ d, d < numRows → o.rankIfExists d = if d ∈ rows then some (rankSpec rows d) else none) ∧
+      (∀ k (hk : k < rows.length), o.select k = some rows[k] ∧
+          ∀ start, start ≤ rows[k] / EPB → o.selectFrom start k = some rows[k]) ∧
+      (∀ r ∈ rows, (o.rank r).bind o.select = some r) := by
+  have ok : OptOk rows numRows := ⟨hs, hb, hsmall⟩
+  refine ⟨openedOf rows numRows, optOpen_enc rows numRows ok, rfl, rfl, opt_rank rows numRows ok,
+    opt_rankIfExists rows numRows ok,
+    fun k hk => ⟨opt_select rows numRows ok k hk, fun start h => opt_selectFrom rows numRows ok k hk start h⟩, ?_⟩
+  intro r hr
+  obtain ⟨k, hk, rfl⟩ := List.getElem_of_mem hr
+  rw [opt_rank rows numRows ok, rankSpec_getElem rows hs k hk]
+  exact opt_select rows numRows ok k hk
+
+/-- the abstract layer used above, for every block size: `rank` through blocks (block offset +
+in-block rank) counts the members below; on a strictly increasing list `select (rank r) = r` and
+the k-th member has rank k; a sparse block alone (binary search on sorted u16 LE) and a dense
+block alone (bitvec + rank offsets) answer like the abstract set. -/
+theorem C08_optional_blocks (E : Nat) (hE : 0 < E) :
+    (∀ (rows : List Nat) (r : Nat), rankBlocks E rows r = rankSpec rows r) ∧
     (∀ (rows : List Nat), rows.Pairwise (· < ·) →
         (∀ r ∈ rows, rows[rankSpec rows r]? = some r) ∧
         (∀ k (hk : k < rows.length), rankSpec rows rows[k] = k)) ∧
-    (∀ (els : List Nat), els.Pairwise (· < ·) → (∀ e ∈ els, e < 65536) → ∀ t,
-        sparseRank (sparseEnc els) t = rankSpec els t ∧
+    (∀ (els : List Nat), els.Pairwise (· < ·) → (∀ e ∈ els, e < 65536) → ∀ t, t < 65536 →
+        sparseRank (sparseEnc els) t = rankSpec els t ∧ denseRank (denseEnc els) t = rankSpec els t ∧
         sparseRankIfExists (sparseEnc els) t = (if t ∈ els then some (rankSpec els t) else none) ∧
-        (∀ k (hk : k < els.length), sparseSelect (sparseEnc els) k = els[k])) :=
-  ⟨rankBlocks_eq, fun rows hs => ⟨select_rank rows hs, rankSpec_getElem rows hs⟩,
-   fun els hs h t => sparse_spec els hs h t⟩
+        denseRankIfExists (denseEnc els) t = (if t ∈ els then some (rankSpec els t) else none) ∧
+        (∀ k (hk : k < els.length), sparseSelect (sparseEnc els) k = els[k]
+            ∧ denseSelect (denseEnc els) k = some els[k])) :=
+  ⟨rankBlocks_eq E hE, fun rows hs => ⟨select_rank rows hs, rankSpec_getElem rows hs⟩,
+   fun els hs h t ht => ⟨(sparse_spec els hs h t).1, dense_rank els hs t ht, (sparse_spec els hs h t).2.1,
+     dense_rankIfExists els hs t ht,
+     fun k hk => ⟨(sparse_spec els hs h t).2.2 k hk, dense_select els hs h k hk⟩⟩⟩
 
+example : (optOpen (optEnc [1, 5, 9] 10)).bind (·.rank 6) = some 2
+    ∧ (optOpen (optEnc [1, 5, 9] 10)).bind (·.select 2) = some 9
+    ∧ (optOpen (optEnc [1, 5, 9] 10)).bind (·.rankIfExists 5) = some 1
+    ∧ (optOpen (optEnc [1, 5, 9] 10)).bind (·.rankIfExists 6) = none := by decide
 example : rankBlocks 4 [1, 5, 6, 11] 6 = 2 ∧ sparseRank (sparseEnc [1, 5, 6, 700]) 6 = 2
     ∧ sparseRankIfExists (sparseEnc [1, 5, 6, 700]) 7 = none
     ∧ sparseSelect (sparseEnc [1, 5, 6, 700]) 3 = 700 := by decide
@@ -162,16 +256,41 @@ theorem C08_multivalued_ranges {V : Type} (rows : Column V) :
     read (encodeAs .multivalued rows).1 (encodeAs .multivalued rows).2 = rows :=
   read_encodeAs .multivalued rows trivial
 
-/- Full statement still open (kept visible): `C08_writer_pipeline` from the *operation log*
-   (`NewDoc d` / `Value v` symbols, cardinality detection while recording, numeric coercion).
-   Proved part: from the rows to (index, values) and back. -/
-/-- writer pipeline, index part: for every cardinality that fits the rows (Full needs one value in
-every row, Optional at most one) the written (index, values) reads back as the rows, and the
-detected cardinality always fits -/
-theorem C08_writer_pipeline_partial {V : Type} (rows : Column V) :
-    (∀ card : Card, card.fits rows → read (encodeAs card rows).1 (encodeAs card rows).2 = rows) ∧
-    (detectCard rows).fits rows :=
-  ⟨fun card h => read_encodeAs card rows h, detectCard_fits rows⟩
+/-- writer pipeline from the operation log: recording every value of every document
+(`ColumnWriter::record`: `NewDoc`/`Value` symbols, `delta_with_last_doc` cardinality detection),
+`get_cardinality(num_docs)`, and replaying the log into the index builder of that cardinality
+(`consume_operation_iterator`, Optional/Multivalued index builders) writes exactly
+`encodeAs (detectCard rows) rows`, which reads back as the rows: every document returns exactly
+its values in insertion order, none when absent. -/
+theorem C08_writer_pipeline {V : Type} (rows : Column V) :
+    writerEncode rows = encodeAs (detectCard rows) rows ∧
+    read (writerEncode rows).1 (writerEncode rows).2 = rows := by
+  have h := writerEncode_eq rows
+  exact ⟨h, by rw [h]; exact read_encodeAs _ rows (detectCard_fits rows)⟩
+
+/-- for every cardinality that fits the rows (Full needs one value in every row, Optional at most
+one) the written (index, values) reads back as the rows — the merge may pick a larger cardinality
+than the writer -/
+theorem C08_column_index_roundtrip {V : Type} (rows : Column V) (card : Card) (hfit : card.fits rows) :
+    read (encodeAs card rows).1 (encodeAs card rows).2 = rows :=
+  read_encodeAs card rows hfit
+
+/-- numeric coercion (`CompatibleNumericalTypes` + `Coerce`): when the detected column type is an
+integer type, every recorded value is an integer, is coerced without reaching `unreachable!()`, and
+the stored 64-bit pattern denotes the same number in the column's type — coercion is exact, hence
+injective and order preserving, on the values present. (A mixed column that falls back to f64
+stores `v as f64`, which is lossy above 2^53 by design; floats are opaque to the kernel and that
+case is checked by the harness only.) -/
+theorem C08_numeric_coercion_exact (vals : List NumVal) (ht : numTypeOf vals ≠ .f64) :
+    ∀ v ∈ vals, ∃ x n, coerceInt (numTypeOf vals) v = some x ∧ v.intValue = some n
+      ∧ storedInt (numTypeOf vals) x = n :=
+  coercion_exact vals ht
+
+example : numTypeOf [.i64 5#64, .u64 7#64] = .i64 ∧ numTypeOf [.u64 (BitVec.ofNat 64 (2 ^ 63)), .u64 1#64] = .u64
+    ∧ numTypeOf [.u64 (BitVec.ofNat 64 (2 ^ 63)), .i64 (BitVec.ofInt 64 (-1))] = .f64 := by decide
+example : writerEncode [[1, 2], [], [3], []] = (.multivalued [0, 2] 4 [0, 2, 3], [1, 2, 3]) := by decide
+example : (writerEncode [[1], [2]]).1 = .full ∧ (writerEncode [[1], [], [2]]).1 = .optional [0, 2] 3
+    ∧ (writerEncode [[1], []]).1 = .optional [0] 2 := by decide
 
 example : read (encodeAs .multivalued [[1, 2], [], [3], []]).1 (encodeAs .multivalued [[1, 2], [], [3], []]).2
     = [[1, 2], [], [3], []] := by decide
@@ -213,12 +332,35 @@ theorem C08_range_transform_partial (s : Stats) (hg : s.gcd ≠ 0) (lo hi v : Na
       ((transformRange s lo hi).1 ≤ (v - s.min) / s.gcd ∧ (v - s.min) / s.gcd ≤ (transformRange s lo hi).2) :=
   transformRange_exact s hg lo hi v hv hd hHi
 
-/-- values [10, 20, 30], query range 0..=5: the transformed range is [0, 0], which the stored value
-of 10 (`(10 − 10)/10 = 0`) satisfies although 10 ∉ [0, 5] -/
+/-- the rows `BitpackedReader::get_row_ids_for_value_range` reports, as the *current* source computes
+them (`Gen.RANGE_BELOW_MIN_GUARD` is re-extracted on every run), are exactly the rows holding a
+value in the query range — provided the source has the guard, or the query range is not entirely
+below the column minimum (named hypothesis `hGuardOrHi`; its failure is the known finding
+C08:range-below-min-returns-min-rows). -/
+theorem C08_range_rows_partial (s : Stats) (hg : s.gcd ≠ 0) (vals : List Nat)
+    (hv : ∀ v ∈ vals, s.min ≤ v ∧ s.gcd ∣ v - s.min) (lo hi : Nat)
+    (hGuardOrHi : Gen.RANGE_BELOW_MIN_GUARD = true ∨ s.min ≤ hi ∨ lo > hi) :
+    rangeRowsWith Gen.RANGE_BELOW_MIN_GUARD s (vals.map (fun v => (v - s.min) / s.gcd)) lo hi
+      = (List.range vals.length).filter (fun i => decide (lo ≤ vals.getD i 0) && decide (vals.getD i 0 ≤ hi)) := by
+  rcases hGuardOrHi with h | h
+  · rw [h]; exact rangeRows_guarded_exact s hg vals hv lo hi
+  · rw [rangeRowsWith_guard_irrelevant _ s _ lo hi h]; exact rangeRows_guarded_exact s hg vals hv lo hi
+
+/-- with the guard `if *range.end() < stats.min_value { return None; }` the lookup is exact for every
+query range (this is the behaviour after the pending fix) -/
+theorem C08_range_rows_guarded (s : Stats) (hg : s.gcd ≠ 0) (vals : List Nat)
+    (hv : ∀ v ∈ vals, s.min ≤ v ∧ s.gcd ∣ v - s.min) (lo hi : Nat) :
+    rangeRowsWith true s (vals.map (fun v => (v - s.min) / s.gcd)) lo hi
+      = (List.range vals.length).filter (fun i => decide (lo ≤ vals.getD i 0) && decide (vals.getD i 0 ≤ hi)) :=
+  rangeRows_guarded_exact s hg vals hv lo hi
+
+/-- without the guard: values [10, 20, 30, 10], query range 0..=5 — the transformed range is [0, 0],
+which the stored value of 10 (`(10 − 10)/10 = 0`) satisfies although 10 ∉ [0, 5]: rows 0 and 3 are
+reported -/
 theorem C08_range_transform_counterexample :
-    transformRange (collectStats [10, 20, 30]) 0 5 = (0, 0)
-      ∧ (10 - (collectStats [10, 20, 30]).min) / (collectStats [10, 20, 30]).gcd = 0
-      ∧ ¬ (0 ≤ 10 ∧ 10 ≤ 5) := by decide
+    transformRange (collectStats [10, 20, 30, 10]) 0 5 = (0, 0)
+      ∧ rangeRowsWith false (collectStats [10, 20, 30, 10]) [0, 1, 2, 0] 0 5 = [0, 3]
+      ∧ rangeRowsWith true (collectStats [10, 20, 30, 10]) [0, 1, 2, 0] 0 5 = [] := by decide
 
 /-! ## merge -/
 
@@ -244,14 +386,21 @@ example : read (mergeShuffled [(0, 1), (1, 0), (0, 0)]
       [⟨2, some (encodeAs .optional [[7], []])⟩, (⟨1, none⟩ : MergeInput Nat)]).2
     = [[], [], [7]] := by decide
 
-/-- stacked merge: for inputs in canonical form — each input column is `encodeAs card rows` for a
-cardinality that fits its rows, which is what the writer (`C08_writer_pipeline_partial`) and every
-earlier merge (`mergeShuffledAs_eq`, `mergeStacked_canon`) produce — the merged column is
-`encodeAs (max cardinality) (all rows)` and reads back as the concatenation of the inputs. -/
-theorem C08_merge_stack {V : Type} (cols : List (Card × Column V)) (hfit : ∀ c ∈ cols, c.1.fits c.2) :
-    read (mergeStacked (cols.map canonInput)).1 (mergeStacked (cols.map canonInput)).2
-      = stackSpec (cols.map (·.2)) :=
-  read_mergeStacked cols hfit
+/-- stacked merge: every input is either missing in that segment (`ColumnIndex::Empty { num_docs }`)
+or in canonical form — `encodeAs card rows` for a cardinality that fits its rows, which is what the
+writer (`C08_writer_pipeline`) and every earlier merge (`mergeShuffledAs_eq`, `mergeStacked_canon`)
+produce. The merged column (maximum cardinality, rows-with-values shifted by the segment offsets,
+cumulated start offsets, concatenated values) reads back as the concatenation of what a reader
+sees of each input; a missing column contributes `num_docs` absent rows. -/
+theorem C08_merge_stack {V : Type} (ins : List (MergeInput V)) (h : ∀ m ∈ ins, CanonOrMissing m) :
+    read (mergeStacked ins).1 (mergeStacked ins).2 = stackSpec (ins.map MergeInput.read) :=
+  read_mergeStacked_any ins h
+
+example : read (mergeStacked [⟨1, some (encodeAs .full [[1]])⟩, ⟨2, none⟩,
+      (⟨1, some (encodeAs .full [[5]])⟩ : MergeInput Nat)]).1
+    (mergeStacked [⟨1, some (encodeAs .full [[1]])⟩, ⟨2, none⟩,
+      (⟨1, some (encodeAs .full [[5]])⟩ : MergeInput Nat)]).2
+    = [[1], [], [], [5]] := by decide
 
 example : read (mergeStacked [⟨2, some (encodeAs .full [[1], [2]])⟩,
       (⟨2, some (encodeAs .multivalued [[], [3, 4]])⟩ : MergeInput Nat)]).1
